@@ -67,6 +67,7 @@ type zzBehaviour struct {
 	panicWhen int // 0 never, 1 before writing, 2 after writing
 	ret       int
 	err       bool
+	abort     bool // the panic value is http.ErrAbortHandler
 	copies    bool // body sent with io.Copy from a plain reader (as the file server and ServeContent do): uses the writer's ReadFrom if it has one
 }
 
@@ -86,6 +87,9 @@ func zzDraw() zzBehaviour {
 		}
 	}
 	b.panicWhen = verifrt.Choose("panic", 3)
+	if b.panicWhen == 1 {
+		b.abort = verifrt.Bool("panic-with-abort-sentinel")
+	}
 	if b.writes && b.panicWhen == 0 {
 		b.err = verifrt.Bool("err-after-writing")
 	}
@@ -104,6 +108,9 @@ type zzInner struct{ b *zzBehaviour }
 func (h zzInner) ServeHTTP(w http.ResponseWriter, r *http.Request) (int, error) {
 	b := h.b
 	if b.panicWhen == 1 {
+		if b.abort {
+			panic(http.ErrAbortHandler) // net/http's "abort this handler" sentinel is a panic like any other here
+		}
 		panic("inner handler panic before writing")
 	}
 	if b.writes {
